@@ -314,6 +314,19 @@ def run(chk: Check):
         if r.violated or missing:
             raise tlc.TLCFailure("MC_TextOps violated=%s missing=%s\n%s" % (r.violated, missing, r.out[-3000:]))
         chk.notes["m1_action_coverage"] = {k: v[1] for k, v in cov.items()}
+        # design level: the span representation (transcribed from text.py) refines the reference semantics
+        base = open(tlc.SPECS + "/MC_TextSpans.cfg").read().replace("MCDepth = 3", "MCDepth = %d" % chk.pick(3, 4))
+        rs, covs, miss = tlc.model_check("MC_TextSpans", cfg_text=base,
+                                         require_actions=["New", "AppendA", "StylizeA", "PadA", "CropA", "SetLengthA", "TruncateA"])
+        chk.add_tlc(rs, "M1-span-design-refines")
+        if rs.violated or miss:
+            raise tlc.TLCFailure("MC_TextSpans violated=%s missing=%s\n%s" % (rs.violated, miss, rs.out[-3000:]))
+        for sw in ("CropClamp", "StartClamp", "CtorLen"):      # each 9.10.0 behaviour must be caught by TLC
+            rg, _, _ = tlc.model_check("MC_TextSpans", cfg_text=open(tlc.SPECS + "/MC_TextSpans.cfg").read().replace("%s = TRUE" % sw, "%s = FALSE" % sw))
+            chk.add_tlc(rg, "M1-span-design-guard")
+            if not rg.violated:
+                raise tlc.TLCFailure("vacuity guard: MC_TextSpans with %s = FALSE was not rejected" % sw)
+        chk.notes["span_design_defect_switches_caught"] = ["CropClamp", "StartClamp", "CtorLen"]
         cfgt = "CONSTANTS\n  GenDepth = %d\n  MCDepth = 0\nSPECIFICATION Spec\nCONSTRAINT Emit\nCHECK_DEADLOCK FALSE\n"
         behs, r2 = tlc.behaviours("MC_TextOps", cfg_text=cfgt % 2, timeout=3000)
         chk.add_tlc(r2, "M2-exhaustive-depth-2")
